@@ -1,6 +1,7 @@
 #!/bin/sh
 # usage: tools/try_seed.sh <patch.diff> <ID>...   applies the patch to /repo, runs the quick checks, reverts
 P="$1"; shift
+mkdir -p /verif/.target; exec 9>/verif/.target/build.lock; flock 9; export NLMC_LOCK_HELD=1
 cd /repo || exit 2
 git diff --quiet || { echo "/repo has uncommitted changes" >&2; exit 2; }
 git apply "$P" || { echo "patch does not apply" >&2; exit 2; }
